@@ -1,3 +1,71 @@
-From SV Require Import Num Costs.
-Theorem placeholder : True. Proof. exact I. Qed.
-Print Assumptions placeholder.
+(* Property C12 — electricity costs follow the tariff rules of the price sheet.
+   Model: theories/Costs.v (calculate_costs and its helpers for all seven schemes); tie: exact
+   correspondence of the returned dictionary and the written "costs" section (./check C12).
+   PARTIAL.  Proved (R instance, all series, sheets, schemes): tariff class and utilisation
+   bracket selection; the composition net = commodity + capacity + procurement + additional +
+   levies + concession + electricity tax, gross = net*(1+VAT) - feed-in; every energy-proportional
+   term = rate*energy/100; annual value = period value / year fraction for all of them, capacity
+   and basic charge taken as they are, additional costs = sheet value (RLM); repetition of a
+   profile scales energy, keeps the peak and keeps energy-per-year / utilisation (hence class and
+   bracket) unchanged.  The function has no date argument: costs cannot depend on absolute dates.
+   NOT proved: the scheme-specific peak selection (windows, highest tariff, outside flex
+   windows, schedule deviation) as separate statements, and repeat/halving invariance of the
+   FINAL annual totals through all seven schemes — these are compared against the implementation
+   (exact correspondence) and evaluated relationally on every generated case. *)
+From Coq Require Import Reals List.
+From SV Require Import Num RNum Costs CostsProps.
+Import ListNotations.
+Open Scope R_scope.
+
+Theorem C12_tariff_class : forall (sh:@sheet R) ft util e,
+  let f := snd (@find_prices R RNum sh ft util e) in
+  (ft = Some RLM -> f = RLM) /\ (ft <> Some RLM -> (f = SLP <-> Rabs e <= 100000)).
+Proof. exact tariff_class. Qed.
+Print Assumptions C12_tariff_class.
+
+Theorem C12_utilisation_bracket : forall (sh:@sheet R) ft util e, snd (@find_prices R RNum sh ft util e) = RLM ->
+  (util < 2500 -> @find_prices R RNum sh ft util e = (lo_commodity sh, lo_capacity sh, RLM)) /\
+  (2500 <= util -> @find_prices R RNum sh ft util e = (hi_commodity sh, hi_capacity sh, RLM)).
+Proof. exact rlm_bracket. Qed.
+Print Assumptions C12_utilisation_bracket.
+
+Theorem C12_slp_prices : forall (sh:@sheet R) ft util e, snd (@find_prices R RNum sh ft util e) = SLP ->
+  @find_prices R RNum sh ft util e = (slp_commodity sh, slp_basic sh, SLP).
+Proof. exact slp_prices. Qed.
+Print Assumptions C12_slp_prices.
+
+(* every successful cost calculation ends in [finalize] applied to the period's grid energy *)
+Theorem C12_structure : forall (sh:@sheet R) inp o, @calculate_costs R RNum sh inp = Ok o ->
+  exists e mx pk cpy csim cap f pv, @finalize R RNum sh inp e mx pk cpy csim cap f pv = Ok o /\
+    Rdivr (@nsum R RNum (pos_supply (i_supply inp)) * i_secs inp) c3600 = Ok e /\
+    (is_variable (i_cc inp) = false -> pv = None).
+Proof. exact costs_finalize. Qed.
+Print Assumptions C12_structure.
+
+Theorem C12_composition_and_annualisation : forall (sh:@sheet R) inp e mx pk cpy csim cap f pv o,
+  @finalize R RNum sh inp e mx pk cpy csim cap f pv = Ok o ->
+  o_commodity_sim o = csim /\ o_commodity_py o = cpy /\ o_capacity o = cap /\ o_fee o = f /\ o_energy_sim o = e /\
+  o_net_sim o = o_commodity_sim o + o_capacity o + o_procurement_sim o + o_additional_sim o
+                + sumR (o_levies_sim o) + o_concession_sim o + o_etax_sim o /\
+  o_net_py o = (o_net_sim o - o_capacity o) / i_fy inp + o_capacity o /\
+  o_vat_sim o = vat_percent sh / 100 * o_net_sim o /\ o_vat_py o = vat_percent sh / 100 * o_net_py o /\
+  o_total_sim o = o_net_sim o + o_vat_sim o - sumR (o_feedin_sim o) /\
+  o_total_py o = o_net_py o + o_vat_py o - sumR (o_feedin_py o) /\
+  i_fy inp <> 0 /\
+  o_levies_sim o = [eeg sh * e / 100; chp sh * e / 100; indiv sh * e / 100; offshore sh * e / 100; interruptible sh * e / 100] /\
+  o_levies_py o = map (fun x => x / i_fy inp) (o_levies_sim o) /\
+  o_concession_sim o = concession sh * e / 100 /\ o_concession_py o = o_concession_sim o / i_fy inp /\
+  o_etax_sim o = etax sh * e / 100 /\ o_etax_py o = o_etax_sim o / i_fy inp /\
+  o_procurement_py o = o_procurement_sim o / i_fy inp /\
+  (pv = None -> o_procurement_sim o = procurement sh * e / 100) /\
+  o_additional_py o = (match f with RLM => additional sh | SLP => 0 end) /\
+  o_additional_sim o = o_additional_py o * i_fy inp.
+Proof. exact finalize_composition. Qed.
+Print Assumptions C12_composition_and_annualisation.
+
+Theorem C12_repeat_energy_peak : forall k (l:list R) secs fy, (0 < k)%nat -> fy <> 0 ->
+  let e := @nsum R RNum l * secs / 3600 in
+  let e' := @nsum R RNum (rep k l) * secs / 3600 in
+  e' = INR k * e /\ e' / (INR k * fy) = e / fy /\ @maxl0 R RNum (rep k l) = @maxl0 R RNum l.
+Proof. exact repeat_energy_peak. Qed.
+Print Assumptions C12_repeat_energy_peak.
